@@ -244,11 +244,16 @@ class RepeatedHour(_dt.tzinfo):
         return 'RH'
 
 
+#: ONE zone object for every date-time of that zone, as with zoneinfo.ZoneInfo / dateutil zones (date-times sharing their
+#: tzinfo object are compared and hashed by their wall-clock fields, ignoring `fold`)
+_RH = RepeatedHour()
+
+
 def make_datetime(v: dict) -> _dt.datetime:
     """{'$dt': [y, mo, d, h, mi, s, us], 'tz': minutes | None | 'RH', 'fold': 0|1} -> datetime."""
     y, mo, d, h, mi, s, us = v['$dt']
     tz = v.get('tz')
-    tzinfo = None if tz is None else (RepeatedHour() if tz == 'RH' else _dt.timezone(_dt.timedelta(minutes=tz)))
+    tzinfo = None if tz is None else (_RH if tz == 'RH' else _dt.timezone(_dt.timedelta(minutes=tz)))
     return _dt.datetime(y, mo, d, h, mi, s, us, tzinfo=tzinfo, fold=int(v.get('fold', 0)))
 
 
